@@ -137,6 +137,15 @@ CLAIMS["C18"] = (
     "the thorough tier's scheme analysis; long-run behaviour is not decided.",
     "must-pass-through (post-dominance) of limit checks + container inventory from ADT types")
 
+CLAIMS["C11"] = (
+    "decides the cursor-column bookkeeping as effects: each of the 13 constructions of a terminal "
+    "output event must be in a reviewed table and show its required print_col effect on the path "
+    "(reset / per-character count / known zero); PRINT counts characters with newline reset; "
+    "TAB/POS receive the column; ',' is TAB(-14); trailing separators; number framing and "
+    "formatting from the value's own float type. Zone arithmetic, exponent switch and float "
+    "round-trip are not decided.",
+    "effect table over event constructions + must-write / path-condition checks on MIR")
+
 NOT_APPLICABLE = {}
 
 
